@@ -22,6 +22,9 @@ Definition mval_eqb (a b : mval) : bool :=
   | _, _ => false
   end.
 Definition entry_eqb (a b : str * mval) : bool := str_eqb (fst a) (fst b) && mval_eqb (snd a) (snd b).
+(* dicts are compared as mappings: the order of keys carries no meaning for the property *)
+Definition perm_eqb {A} (eqb : A -> A -> bool) (a b : list A) : bool :=
+  Nat.eqb (length a) (length b) && forallb (fun x => existsb (eqb x) b) a && forallb (fun y => existsb (fun x => eqb x y) a) b.
 Fixpoint ddef_eqb (a b : ddef) : bool :=
   match a, b with
   | DVal x, DVal y => pv_eqb x y
@@ -32,7 +35,7 @@ Fixpoint ddef_eqb (a b : ddef) : bool :=
          | p :: x', q :: y' => ddef_eqb p q && go x' y'
          | _, _ => false
          end) x y
-  | DMap x, DMap y => list_eqb entry_eqb x y
+  | DMap x, DMap y => perm_eqb entry_eqb x y
   | _, _ => false
   end.
 Definition cval_eqb (a b : cval) : bool :=
@@ -44,7 +47,7 @@ Definition cval_eqb (a b : cval) : bool :=
   end.
 Definition plainsec := (list (str * ddef) * cval)%type.
 Definition plainsec_eqb (a b : plainsec) : bool :=
-  list_eqb (fun x y => str_eqb (fst x) (fst y) && ddef_eqb (snd x) (snd y)) (fst a) (fst b)
+  perm_eqb (fun x y => str_eqb (fst x) (fst y) && ddef_eqb (snd x) (snd y)) (fst a) (fst b)
   && cval_eqb (snd a) (snd b).
 Definition out_eqb {A} (eqb : A -> A -> bool) (a b : outcome A) : bool :=
   match a, b with
@@ -115,7 +118,7 @@ Definition judge_hist (c : list (str * det unit) * list str * outcome plainsec *
        true.
 
 (* ---------- documents: metadata writer ---------- *)
-(* SigmaRuleBase.to_dict: which keys are written, in which order.  A field is described by its
+(* SigmaRuleBase.to_dict: which keys are written (compared as a set: key order carries no meaning).  A field is described by its
    shape in the loaded object: 0 = None, 1 = empty list, 2 = anything else. *)
 Definition F_title := 0. Definition F_id := 1. Definition F_status := 2. Definition F_level := 3.
 Definition F_author := 4. Definition F_description := 5. Definition F_name := 6.
@@ -175,8 +178,8 @@ Definition judge_doc (c : N * list (N * N) * list N * list N * (list N * list N 
   let '(pur, again) := purity in
   let '(sshapes, scustom, sflag, skeys) := sub in
   let agree := match j1 with
-               | Ok _ => list_eqb N.eqb (meta_keys kind shapes custom) keys
-                         && list_eqb N.eqb (sub_keys kind sshapes scustom sflag) skeys
+               | Ok _ => perm_eqb N.eqb (meta_keys kind shapes custom) keys
+                         && perm_eqb N.eqb (sub_keys kind sshapes scustom sflag) skeys
                | _ => true end in
   let agree := agree && args_unchanged pur in
   let pure := args_unchanged pur &&
